@@ -17,17 +17,46 @@ pub fn def() -> CheckDef {
         id: "C02",
         level: "fault_enumeration",
         cases: |t| match t {
-            Tier::Quick => 4_000,
-            Tier::Thorough => 150_000,
+            Tier::Quick => 30_000 + LARGE_QUICK,
+            Tier::Thorough => 1_000_000 + LARGE_THOROUGH,
         },
         gen,
         run,
-        rule: "seeded histories (<= 25 ops: structure, whole-stream writes, handle scripts, metadata); a process crash is injected at EVERY boundary between two API calls (snapshot of the image without flush), the snapshot is opened in permissive and strict mode and dumped, and compared with the model (streams with unflushed handle data: everything but their content). At one drawn boundary per history the run forks: the rest of the history is executed on the live object and on the reopened snapshot, both against the model. Non-trivial: >= 1 successful mutation and >= 1 crash-point check; distinct = distinct (seam log, final image) hash.",
+        rule: "seeded histories (<= 25 ops: structure, whole-stream writes, handle scripts, metadata; the first cases of a run grow a V3 file past 109 FAT sectors in ~1 MB steps); a process crash is injected at EVERY boundary between two API calls (snapshot of the image without flush), the snapshot is opened in permissive and strict mode and dumped, and compared with the model (streams with unflushed handle data: everything but their content). At one drawn boundary per history the run forks: the rest of the history is executed on the live object and on the reopened snapshot, both against the model. Non-trivial: >= 1 successful mutation and >= 1 crash-point check; distinct = distinct (seam log, final image) hash.",
         assumptions: &["crash = process crash / into_inner: bytes that reached write() survive (no power-loss model: the property does not state one)", "reference model as in C01"],
         cpu_limit_s: 30,
         fault_kinds: "F-CR at every operation boundary (enumerated per history); fork + continue",
         count_subruns: false,
     }
+}
+
+const LARGE_QUICK: u64 = 2;
+const LARGE_THOROUGH: u64 = 40;
+
+/// Histories that grow the FAT past the 109 header DIFAT slots (V3, > 7.1 MB)
+/// in steps, so that crash points fall before, at and after the first DIFAT sector.
+fn large_case(rng: &mut Rng, idx: u64) -> Case {
+    use crate::ops::{Op, Whence};
+    let mut c = Case::new("C02", "large", 3);
+    c.bufsize = *rng.pick(gen::BUFSIZES);
+    let mut nonce = 9000u32;
+    c.ops.push(Op::WriteWhole { path: "/small".into(), len: 100, nonce: 1 });
+    c.ops.push(Op::HCreate { h: 0, path: "/big".into() });
+    let step = 1_000_000 + rng.below(200_000);
+    let target = if idx % 2 == 0 { 7_300_000 } else { 7_120_000 + rng.below(100_000) };
+    let mut len = 0u64;
+    while len < target {
+        len = (len + step).min(target);
+        c.ops.push(Op::HSetLen { h: 0, n: len });
+        nonce += 1;
+        c.ops.push(Op::HSeek { h: 0, whence: Whence::End, off: -100, uoff: 0 });
+        c.ops.push(Op::HWriteAll { h: 0, len: 100, nonce });
+        c.ops.push(Op::HFlush { h: 0 });
+    }
+    c.ops.push(Op::HDrop { h: 0 });
+    c.ops.push(Op::WriteWhole { path: "/after".into(), len: 5000, nonce: 2 });
+    c.ops.push(Op::RemoveStream("/small".into()));
+    c
 }
 
 pub fn flags() -> Flags {
@@ -43,8 +72,11 @@ pub fn flags() -> Flags {
     }
 }
 
-pub fn gen(seed: u64, idx: u64, _tier: Tier) -> Case {
+pub fn gen(seed: u64, idx: u64, tier: Tier) -> Case {
     let mut rng = Rng::for_case(seed, "C02", idx);
+    if idx < (if tier == Tier::Quick { LARGE_QUICK } else { LARGE_THOROUGH }) {
+        return large_case(&mut rng, idx);
+    }
     let k = Knobs { max_ops: 25, near_miss: &[0, 5], no_remove_with_open_handles: true, ..DEFAULT_KNOBS };
     let w = if rng.chance(1, 2) {
         common::join_weights(gen::c01_weights(), gen::handle_weights())
